@@ -19,7 +19,29 @@ Definition spec_search (ws : list bool) (o : op) (R : tset) (K : list ts) : list
   | _, _, _ => related ws o R K
   end.
 
+(* twin requests: every reference on its own (the iterator adaptor asks one reference at a time),
+   results gathered, sorted, each once; the twin resource has the same text and the same known
+   selections under the same handle numbers and answers the same, shown as 1000 + handle *)
+Fixpoint dedup_adj (l : list nat) : list nat :=
+  match l with
+  | x :: ((y :: _) as r) => if Nat.eqb x y then dedup_adj r else x :: dedup_adj r
+  | _ => l
+  end.
+Definition gathered (f : tset -> list nat) (R : tset) : list nat :=
+  let one := dedup_adj (sort (flat_map (fun t => f (mkset [t] false)) (items R))) in
+  one ++ map (fun h => 1000 + h) one.
+
 Definition run_C06 (x : sx) : sx :=
+  if Nat.eqb (sx_nat (sx_nth 5 x)) 1 then
+    let len := sx_nat (sx_nth 0 x) in
+    let ws := map sx_bool (sx_list (sx_nth 1 x)) in
+    let K := known_of_sx (sx_nth 2 x) in
+    let R := tset_of_sx (sx_nth 3 x) in
+    L (map (fun c =>
+              let o := op_of_code (sx_Z c) in
+              triple (of_nats (gathered (fun R1 => search ws o R1 K len) R))
+                     (of_nats (gathered (fun R1 => spec_search ws o R1 K) R)) 0) (sx_list (sx_nth 4 x)))
+  else
   let len := sx_nat (sx_nth 0 x) in
   let ws := map sx_bool (sx_list (sx_nth 1 x)) in
   let K := known_of_sx (sx_nth 2 x) in
